@@ -134,7 +134,7 @@ theorem zip_fst_sublist {β γ : Type} : ∀ (a : List β) (b : List γ), ((a.zi
   | _ :: _, [] => by simp
   | x :: a, y :: b => by
     simp only [List.zip_cons_cons, List.map_cons]
-    exact (zip_fst_sublist a b).cons₂ x
+    exact (zip_fst_sublist a b).cons_cons x
 
 theorem keys_nodup_map_inj (φ : Nat → Idx) (hφ : ∀ a b, φ a = φ b → a = b) (qs : List Nat) (dat : List Int)
     (hq : qs.Pairwise (· < ·)) : (keysOf ((qs.zip dat).map fun p => (φ p.1, p.2))).Nodup := by
